@@ -434,10 +434,17 @@ for depth in (0, 3, MAX_TRACEBACK_DEPTH + 5):
             p = Plan(); r = Registry(); n = p.call(ok); wn = here(); r.add(n, Store(fail)); wr = here(); return p, r, n, wn, wr
         p, r, n, wn, wr = deep(depth, mk)
         check(f"registry.add failing {fail} depth {depth}", run(p, registry=r, output=n), None, wn if fail == "mtime" else wr)
+        # ... and the same through a COPY of the registry (a snapshot taken before more entries were added): the entries keep their creating line
+        check(f"registry.copy(): registry.add failing {fail} depth {depth}", run(p, registry=r.copy(), output=n), None, wn if fail == "mtime" else wr)
+    # an ELEMENT of plan.unpack examined by the stale check (its store's modified-time query fails): the line that created it is the unpack line
+    def mk():
+        p = Plan(); r = Registry(); a = p.call(lambda: (1, 2)); t = p.unpack(a, 2); w = here(); r.add(t[1], Store("mtime")); return p, r, t, w
+    p, r, t, w = deep(depth, mk); check(f"modified-time query of an unpacked element depth {depth}", run(p, registry=r, output=t[1]), t[1], w)
     # registry.source: failing read
     def mk():
         p = Plan(); r = Registry(); n = r.source(p, Store("read", has=True)); w = here(); return p, r, n, w
     p, r, n, w = deep(depth, mk); check(f"registry.source failing read depth {depth}", run(p, registry=r, output=n), None, w)
+    check(f"registry.copy(): registry.source failing read depth {depth}", run(p, registry=r.copy(), output=n), None, w)
 # one creating line reached through two different callers
 def helper(p): n = p.call(boom); w = here(); return n, w
 def caller_a(p): return helper(p)
